@@ -16,6 +16,18 @@ def _config(I, d, g):
     I.world.store('epoch')['config'] = cfg
 
 
+def _query(I, msg, t=0):
+    """the epoch manager's PUBLIC query entry point; returns ('ok', Result-like En) in the shape the obligations used before"""
+    st, r = I.try_call('query', [deps('epoch'), env(t, 'epoch'), msg], CR)
+    if st == 'panic' or not is_ok(r):
+        return st, r
+    return 'ok', Ok(r.f[0].data)
+
+
+def _qmsg(variant, **kw):
+    return mk_enum('mantra_dex_std::epoch_manager::QueryMsg', variant, **kw)
+
+
 def _expected_current(d, g, t):
     now = t // NS
     if now < g:
@@ -79,7 +91,7 @@ def _epoch_of(resp):
     return ep.get('id'), ep.get('start_time')
 
 
-@obligation('C18', 'K1.current_epoch', entries=['query_current_epoch', 'query_epoch'], kind='K',
+@obligation('C18', 'K1.current_epoch', entries=['query', 'query_current_epoch', 'query_epoch'], kind='K',
             statement='now<genesis => Err; else Ok with id=floor((now-g)/d), start=g+id*d, start<=now<start+d; never a panic',
             bounds='duration in [86400, 2^64), genesis, block time (nanoseconds) full u64',
             covers=['ok', 'err_before_genesis'], replay=_replay_current(['block_time_nanos']))
@@ -88,7 +100,7 @@ def k1(I):
     g = I.sym('genesis', hi=U64)
     t = I.sym('block_time_nanos', hi=U64)
     _config(I, d, g)
-    st, r = I.try_call('query_current_epoch', [deps('epoch'), env(t)], CR)
+    st, r = _query(I, _qmsg('CurrentEpoch'), t)
     now = I.ctx.fdiv(t, NS)
     if st == 'panic':
         I.outcome('panic')
@@ -118,7 +130,7 @@ def k2(I):
     g = I.sym('genesis', hi=U64)
     eid = I.sym('id', hi=U64)
     _config(I, d, g)
-    st, r = I.try_call('query_epoch', [deps('epoch'), eid], CR)
+    st, r = _query(I, _qmsg('Epoch', id=eid))
     exact = simp((g + eid * d) * NS)
     if st == 'panic' or is_err(r):
         I.outcome('fail')
@@ -143,8 +155,8 @@ def k3(I):
     t2 = I.sym('t2_nanos', hi=U64)
     I.assume(t1 <= t2)
     _config(I, d, g)
-    s1, r1 = I.try_call('query_current_epoch', [deps('epoch'), env(t1)], CR)
-    s2, r2 = I.try_call('query_current_epoch', [deps('epoch'), env(t2)], CR)
+    s1, r1 = _query(I, _qmsg('CurrentEpoch'), t1)
+    s2, r2 = _query(I, _qmsg('CurrentEpoch'), t2)
     if s1 == 'ok' and is_ok(r1):
         # once defined, the epoch stays defined as time advances
         I.check('defined_stays_defined', s2 == 'ok' and is_ok(r2))
